@@ -1,4 +1,5 @@
 import Driver.Resolve
+import Driver.Sched
 /-! Line protocol: `<op> <tok>*` in, one line out (`bad-op` for anything not understood). -/
 open Driver
 
@@ -8,13 +9,14 @@ def dispatch (line : String) : String :=
   | op :: args =>
     let r :=
       if op.startsWith "resolve." then Driver.Resolve.handle op args
+      else if op.startsWith "sched." then Driver.Sched.handle op args
       else none
     r.getD "bad-op"
 
 partial def loop (hin hout : IO.FS.Stream) : IO Unit := do
   let line ← hin.getLine
   if line.isEmpty then return ()
-  hout.putStrLn (dispatch (line.dropRightWhile (fun c => c == '\n' || c == '\r')))
+  hout.putStrLn (dispatch (String.ofList (line.toList.filter (fun c => c != '\n' && c != '\r'))))
   loop hin hout
 
 def main : IO Unit := do
